@@ -61,3 +61,15 @@ CLAIMS["C09"] = (
     "Decides rules R09.1-R09.5, R09.7, R09.8. Not decided: emitted values beyond placement and derivation, the AEAD itself, the segment assembly order (R09.6 of the design was not built), run-time interoperability." + COMMON_NOTE,
     "wire-table extraction from go/ssa, Markdown table reader for docs/protocol.md, constant folding, structural idiom checks",
     "3/C09")
+
+CLAIMS["C17"] = (
+    "The low-entropy codec's structure against the published rules: the assembly routines are read (register def-use from the declared frame slots through exactly one PDEPQ/PEXTQ to the result slot) and their installation under the CPU feature test is checked; parameter validation dominates encode and decode; the mode table, chunk length, rotation validity set and rotation direction/amount, and the encoded-length law ceil(N/C)*8 with its 8191-chunk bound are folded by constant propagation; the decoder's padding acceptance predicate is folded over polarity x padding value for first and later chunks (canonical form only).",
+    "Decides rules R17.1-R17.4. Not decided, and honestly not applicable to static analysis: that decode(encode(x)) == x and that the portable loops equal PDEP/PEXT for all 2^128 inputs (numerical bijection claims)." + COMMON_NOTE + " Assumes the Go assembler's operand order (mask, source, destination) for PDEPQ/PEXTQ.",
+    "assembly text reader (def-use over 4 mnemonics), dominance, constant folding over go/ssa from function entry and from a chosen block",
+    "3/C17")
+
+CLAIMS["C18"] = (
+    "The UDP-associate tunnel's framing and addressing as code shape: writer/reader frame tables equal the documented frame; the reader touches the stream only through io.ReadFull (so every chunking is covered at once); each violation edge returns (0, error) and the relay loops cannot continue on a desynchronised stream; oversize is refused before a frame is built; remembered reply headers are private copies keyed by their own datagram's address; relay destinations come from the datagram's own header; the SOCKS5 address codec's reader and writer agree on type bytes, lengths and port byte order.",
+    "Decides rules R18.1-R18.5. Not decided: behaviour for every size/content (e.g. empty datagrams through UDPAssociateWrapper.ReadFrom), loss in the UDP legs." + COMMON_NOTE,
+    "wire-table extraction, call-site inventory of stream reads, CFG reachability on error edges, provenance (aliasing) slices on go/ssa",
+    "3/C18")
